@@ -451,7 +451,7 @@ def havoc_locs(it, locs):
             elif loc.name in h.ghost and h.ghost[loc.name].sort() == Val and V.tagname(h.ghost[loc.name]) != 'i' \
                     and str(h.ghost[loc.name]).startswith(('G0v_', 'ghostv_')):
                 h.ghost[loc.name] = z3.Const(st.fresh_name('ghostv_' + loc.name), Val)
-            elif loc.name == 'trace_fn':
+            elif loc.name in ('trace_fn', 'captured') or loc.name.endswith('_value'):
                 h.ghost[loc.name] = z3.Const(st.fresh_name('ghostv_' + loc.name), Val)
             else:
                 h.ghost[loc.name] = Val.i(z3.Int(st.fresh_name('ghost_' + loc.name)))
